@@ -7,9 +7,12 @@
 set -u
 HERE="$(cd "$(dirname "$0")/.." && pwd)"
 SD="$(cd "$1" && pwd)"; shift
-WT=/tmp/hf-seeded-eval-$$
+# SEEDED_SLOT (default: pid) names the scratch worktree; with SEEDED_KEEP_TARGET=1 the per-slot build output is kept
+# between invocations (faster sweeps; the caller removes harness/target-* afterwards).
+WT=/tmp/hf-seeded-eval-${SEEDED_SLOT:-$$}
+git -C /repo worktree remove --force "$WT" >/dev/null 2>&1
 git -C /repo worktree add -q --detach "$WT" HEAD || exit 2
-trap 'git -C /repo worktree remove --force "$WT" >/dev/null 2>&1; rm -rf "$HERE/harness/target-$(echo "$WT" | md5sum | cut -c1-8)"' EXIT
+trap 'git -C /repo worktree remove --force "$WT" >/dev/null 2>&1; [ "${SEEDED_KEEP_TARGET:-0}" = 1 ] || rm -rf "$HERE/harness/target-$(echo "$WT" | md5sum | cut -c1-8)"' EXIT
 if ! git -C "$WT" apply "$SD/patch.diff"; then echo "PATCH-DOES-NOT-APPLY $SD"; exit 2; fi
 if [ $# -eq 0 ]; then
   if [ -f "$SD/meta.json" ]; then set -- $(python3 -c "import json,sys;print(' '.join(json.load(open('$SD/meta.json')).get('run_checks',[json.load(open('$SD/meta.json'))['property']])))"); else set -- $(seq -f "C%02g" 1 20); fi
